@@ -148,7 +148,20 @@ func vfC13ValueFrame(r *vfRand, depth int) []byte {
 	switch typ {
 	case protocol.LOCK_DATA_COMMAND_TYPE_EXECUTE:
 		if depth < 2 {
-			body = append(body, vfC13LockFrame(r, depth+1, true)...)
+			// the embedded command may carry a value frame of its own; its length
+			// header is sometimes 1-6 bytes more than what is left of the outer frame
+			emb := vfC13LockFrame(r, depth+1, true)
+			if r.Chance(60) {
+				emb[19] |= protocol.LOCK_FLAG_CONTAINS_DATA
+			}
+			body = append(body, emb...)
+			if emb[19]&protocol.LOCK_FLAG_CONTAINS_DATA != 0 && r.Chance(85) {
+				inner := vfC13ValueFrame(r, depth+1)
+				if r.Chance(35) && len(inner) > 7 {
+					inner = inner[:len(inner)-r.Range(1, 6)]
+				}
+				body = append(body, inner...)
+			}
 		} else {
 			body = append(body, r.Bytes(r.Intn(80))...)
 		}
